@@ -212,3 +212,18 @@ func (r *StrReader) Read(p []byte) (int, error) {
 	return 0, nil
 }
 func (r *StrReader) Close() error { r.Closed = true; return nil }
+
+// PartsReader is a request body given by its parts (see bastion.parseBodyContract).
+type PartsReader struct {
+	Malformed bool
+	Old       uint64
+	Proof     [][]byte
+	CP        []byte
+	Closed    bool
+}
+
+func (r *PartsReader) Read(p []byte) (int, error) {
+	Unsupported("byte-level Read on a parts body")
+	return 0, nil
+}
+func (r *PartsReader) Close() error { r.Closed = true; return nil }
